@@ -65,6 +65,16 @@ type checker struct {
 	e2eRuns, e2eRejected, e2eHeader, e2eNoHeader, e2eEnvWins, e2eNetrc    atomic.Int64
 	e2eNoLeak                                                             atomic.Int64
 	fSchedules, fOverlapDifferentTokens                                   atomic.Int64
+
+	// round 4: case variants of host names, map iteration seeds (mapseeds.go)
+	seed                                                                int  // map iteration seed of the pass that is running (set between ParallelFor loops only)
+	seedLive                                                            bool // the runtime overlay is built in and works
+	seedMu                                                              sync.Mutex
+	seedSeen                                                            map[string]seedObs
+	envFoldDup, envFoldDupRejected, envFoldDupAccepted                  atomic.Int64
+	lookCaseVariantOnly, lookCaseZoneExact, lookCaseZoneFolded          atomic.Int64
+	lookAmbiguous, lookAcrossSeeds, multiReplayed, chCaseVariantRequest atomic.Int64
+	nCaseZone, nCaseZoneExact                                           atomic.Int64
 }
 
 func (c *checker) addStates(keys []string) {
@@ -144,6 +154,7 @@ func forAllStrings(r *evid.Run, syms []string, maxLen int, f func(local *localSt
 
 type localState struct {
 	states []string
+	multi  []string
 }
 
 // ---------------------------------------------------------------------------------------------
@@ -161,12 +172,23 @@ var ctors = []ctor{
 	{"NewTokenProviderFromString", bufconnect.NewTokenProviderFromString},
 }
 
+// ownerFor picks, among the hosts a token is configured for, the one the relation to the request host is
+// reported for: a case variant of q when there is one (round 4), else the first.
+func ownerFor(owners []string, q string) string {
+	for _, o := range owners {
+		if o != q && foldASCII(o) == foldASCII(q) {
+			return o
+		}
+	}
+	return owners[0]
+}
+
 // classify names the structural reason of a lookup mismatch (signature detail).
 func classify(cfg Config, q, want, got string) string {
 	switch {
 	case want == "" && got != "":
 		if owners := cfg.Owners(got); len(owners) > 0 {
-			return "token-of-other-host-sent/" + Relation(q, owners[0])
+			return "token-of-other-host-sent/" + Relation(q, ownerFor(owners, q))
 		}
 		return "unconfigured-token-sent"
 	case want != "" && got == "":
@@ -180,7 +202,7 @@ func classify(cfg Config, q, want, got string) string {
 		}
 	}
 	if owners := cfg.Owners(got); len(owners) > 0 {
-		return "token-of-other-host-sent-instead/" + Relation(q, owners[0])
+		return "token-of-other-host-sent-instead/" + Relation(q, ownerFor(owners, q))
 	}
 	return "wrong-token/" + cfg.Kind.String()
 }
@@ -210,6 +232,9 @@ func (c *checker) checkEnv(phase, s string, cfg Config, hosts []string) {
 			c.lookup(1)
 			if cfg.Grey() {
 				c.envGreyRejected.Add(1)
+				if cfg.FoldDup && c.seed == 0 {
+					c.envFoldDupRejected.Add(1)
+				}
 				continue
 			}
 			r.Violate("env-parse/wellformed-rejected/"+cfg.Kind.String(),
@@ -219,6 +244,9 @@ func (c *checker) checkEnv(phase, s string, cfg Config, hosts []string) {
 		}
 		if cfg.Grey() {
 			c.envGreyAccepted.Add(1)
+			if cfg.FoldDup && c.seed == 0 {
+				c.envFoldDupAccepted.Add(1)
+			}
 		}
 		for _, q := range hosts {
 			want := cfg.Lookup(q)
@@ -227,7 +255,35 @@ func (c *checker) checkEnv(phase, s string, cfg Config, hosts []string) {
 				r.Violate("env-lookup/nondeterministic", fmt.Sprintf("RemoteToken(%q) of %q returned %q then %q", q, s, got, got2),
 					Case{Phase: phase, Constructor: ct.name, BufToken: s, RequestHost: q, Model: cfg.Canon(), Want: want, Got: got + "|" + got2})
 			}
-			if got != want {
+			if cfg.Ambiguous(q) {
+				// two answers are tolerated for this lookup (exact / first entry equal under case folding): it
+				// must then be the same answer in every pass, whatever the map iteration seed
+				// (a configuration with one binding is not replayed: the second call above is its comparison)
+				c.lookAmbiguous.Add(1)
+				var o seedObs
+				differs := false
+				if len(cfg.Bindings) >= 2 {
+					o, differs = c.acrossSeeds(phase+"|"+ct.name+"|"+s+"|"+q, got)
+				}
+				if differs {
+					r.Violate("env-lookup/nondeterministic",
+						fmt.Sprintf("BUF_TOKEN=%q, request host %q: provider returns %q under map iteration seed %d and %q under seed %d", s, q, o.got, o.seed, got, c.seed),
+						Case{Phase: phase, Constructor: ct.name, BufToken: s, RequestHost: q, Model: cfg.Canon(), Want: want, Got: o.got + "|" + got,
+							Detail: fmt.Sprintf("map iteration seeds %d and %d", o.seed, c.seed)})
+				}
+			}
+			if c.seed == 0 {
+				if _, ok := cfg.FoldFirst(q); ok && want == "" {
+					// open zone: q is a case variant of a configured host and not configured itself
+					c.lookCaseVariantOnly.Add(1)
+					if got == "" {
+						c.lookCaseZoneExact.Add(1)
+					} else {
+						c.lookCaseZoneFolded.Add(1)
+					}
+				}
+			}
+			if got != want && !cfg.Tolerates(q, got) {
 				why := classify(cfg, q, want, got)
 				r.Violate("env-lookup/"+why,
 					fmt.Sprintf("BUF_TOKEN=%q, request host %q: provider returns token %q, model %s says %q (%s)", s, q, got, cfg.Canon(), want, why),
@@ -236,9 +292,12 @@ func (c *checker) checkEnv(phase, s string, cfg Config, hosts []string) {
 		}
 		c.lookup(len(hosts))
 	}
-	// clause accounting (once per string, from the model)
-	if cfg.Kind == KReject {
+	// clause accounting (once per string, from the model; replays under other map seeds are not counted again)
+	if cfg.Kind == KReject || c.seed != 0 {
 		return
+	}
+	if cfg.FoldDup {
+		c.envFoldDup.Add(1)
 	}
 	for _, q := range hosts {
 		want := cfg.Lookup(q)
@@ -276,6 +335,9 @@ func hostVariants(cfg Config, s string, base []string, extra ...string) []string
 		add(b.Host[1:])
 		add(b.Token)
 		add(b.Token + "@" + b.Host)
+		// round 4: the configured host in another letter case
+		add(swapCaseASCII(b.Host, true))
+		add(swapCaseASCII(b.Host, false))
 	}
 	add(s)
 	return out
@@ -286,6 +348,8 @@ func (c *checker) envSpace(phase string, syms []string, maxLen, selfCheckLen int
 	r := c.r
 	gen := Sentences(syms, selfCheckLen)
 	var genHits atomic.Int64
+	var multiMu sync.Mutex
+	var multi []string // sentences that bind >= 2 hosts: replayed under every other map iteration seed
 	total := forAllStrings(r, syms, maxLen, func(local *localState, idx, nsyms int, s string) {
 		cfg := Parse(s)
 		c.envStrings.Add(1)
@@ -318,8 +382,14 @@ func (c *checker) envSpace(phase string, syms []string, maxLen, selfCheckLen int
 				nontrivial = true
 			}
 		}
+		if phase == "K" && !strings.Contains(s, "H") {
+			nontrivial = false // the same string is a case of phase A's space already
+		}
 		if nontrivial {
 			r.Distinct(phase + ":" + s)
+		}
+		if cfg.Kind == KMap && len(cfg.Bindings) >= 2 {
+			local.multi = append(local.multi, s)
 		}
 		local.states = append(local.states, "env:"+cfg.Canon())
 		hosts := baseHosts
@@ -330,7 +400,20 @@ func (c *checker) envSpace(phase string, syms []string, maxLen, selfCheckLen int
 		r.SampleEvery(idx+1, 150001, func() any {
 			return map[string]any{"phase": phase, "buf_token": s, "model": cfg.Canon(), "malformed": cfg.Malformed, "request_hosts": len(hosts)}
 		})
-	}, func(local *localState) { c.addStates(local.states) })
+	}, func(local *localState) {
+		c.addStates(local.states)
+		if len(local.multi) > 0 {
+			multiMu.Lock()
+			multi = append(multi, local.multi...)
+			multiMu.Unlock()
+		}
+	})
+	sort.Strings(multi)
+	c.underOtherSeeds(len(multi), func(i int) {
+		cfg := Parse(multi[i])
+		c.checkEnv(phase, multi[i], cfg, hostVariants(cfg, multi[i], baseHosts, pad))
+	})
+	r.Set(phase+"_sentences_binding_two_or_more_hosts_replayed_under_every_map_seed", len(multi))
 	if int(genHits.Load()) != len(gen) && !r.Expired() {
 		r.Incomplete(fmt.Sprintf("model self-check failed in %s: generator produced %d sentences, enumeration met %d of them", phase, len(gen), genHits.Load()))
 	}
@@ -348,9 +431,11 @@ const (
 	H1 = "r.io"  // registry 1
 	H2 = "xr.io" // registry 2: H1 is a proper suffix of H2
 	H3 = "h3.io" // registry 3: never configured by name
+	// H1C is H1 in another letter case (round 4): the same machine for DNS, another string for an exact-match lookup
+	H1C = "R.io"
 )
 
-var secrets = []string{"tok1", "tok2", "tok3", "tok4", "tok5", "tok6", "tok7", "tok8", "pwA", "pwB", "pwD", "pwA2"}
+var secrets = []string{"tok1", "tok2", "tok3", "tok4", "tok5", "tok6", "tok7", "tok8", "pwA", "pwB", "pwD", "pwA2", "pwC"}
 
 // structuredSentences builds every comma-joined list of 1..k entry forms (plus the empty string).
 func structuredSentences(forms []string, k int) []string {
@@ -381,10 +466,11 @@ func structuredSentences(forms []string, k int) []string {
 	return uniq
 }
 
-func entryForms(h1, h2, h3 string) []string {
+func entryForms(hosts ...string) []string {
 	var forms []string
+	h1, h2 := hosts[0], hosts[1]
 	for _, t := range []string{"tok1", "tok2", "", "tok1:x"} {
-		for _, h := range []string{h1, h2, h3, ""} {
+		for _, h := range append(append([]string(nil), hosts...), "") {
 			forms = append(forms, t+"@"+h)
 		}
 	}
@@ -394,8 +480,14 @@ func entryForms(h1, h2, h3 string) []string {
 // structuredEnv replays structured sentences (up to three entries, malformations at every position).
 func (c *checker) structuredEnv(k int) {
 	r := c.r
-	sentences := structuredSentences(entryForms(H1, H2, H3), k)
-	base := []string{H1, H2, H3, "", "r.i", "io", ".io", "r.io:443", "xxr.io", "r.io.", "tok1", "default"}
+	sentences := structuredSentences(entryForms(H1, H2, H3, H1C), k)
+	base := []string{H1, H2, H3, "", "r.i", "io", ".io", "r.io:443", "xxr.io", "r.io.", "tok1", "default", H1C, "R.IO", "XR.io", "r.Io:443"}
+	var multi []int
+	for i, s := range sentences {
+		if cfg := Parse(s); cfg.Kind == KMap && len(cfg.Bindings) >= 2 {
+			multi = append(multi, i)
+		}
+	}
 	r.ParallelFor(len(sentences), 0, func(i int) {
 		s := sentences[i]
 		cfg := Parse(s)
@@ -422,6 +514,12 @@ func (c *checker) structuredEnv(k int) {
 			return map[string]any{"phase": "S", "buf_token": s, "model": cfg.Canon(), "malformed": cfg.Malformed}
 		})
 	})
+	c.underOtherSeeds(len(multi), func(j int) {
+		s := sentences[multi[j]]
+		cfg := Parse(s)
+		c.checkEnv("S", s, cfg, hostVariants(cfg, s, base, "x"))
+	})
+	r.Set("S_sentences_binding_two_or_more_hosts_replayed_under_every_map_seed", len(multi))
 	r.Set("S_structured_sentences", len(sentences))
 	r.Set("S_max_entries", k)
 }
@@ -437,29 +535,47 @@ type netrcFile struct {
 }
 
 func (c *checker) writeNetrcFiles(sub string, universe [][]NEntry, layouts []int) ([]netrcFile, error) {
-	var files []netrcFile
-	for ui, entries := range universe {
-		for _, layout := range layouts {
-			dir := filepath.Join(c.scratch, sub, fmt.Sprintf("%d-%d", ui, layout))
-			if err := os.MkdirAll(dir, 0o700); err != nil {
-				return nil, err
-			}
-			text := RenderNetrc(entries, layout)
-			f := netrcFile{entries: entries, layout: layout, text: text}
-			if (ui+layout)%2 == 0 {
-				f.env = map[string]string{"HOME": dir}
-				if err := os.WriteFile(filepath.Join(dir, ".netrc"), []byte(text), 0o600); err != nil {
-					return nil, err
-				}
-			} else {
-				p := filepath.Join(dir, "custom-netrc")
-				f.env = map[string]string{"HOME": filepath.Join(dir, "no-such-home"), "NETRC": p}
-				if err := os.WriteFile(p, []byte(text), 0o600); err != nil {
-					return nil, err
-				}
-			}
-			files = append(files, f)
+	files := make([]netrcFile, len(universe)*len(layouts))
+	var errMu sync.Mutex
+	var firstErr error
+	fail := func(err error) {
+		errMu.Lock()
+		if firstErr == nil {
+			firstErr = err
 		}
+		errMu.Unlock()
+	}
+	c.r.ParallelFor(len(files), 0, func(i int) {
+		ui, layout := i/len(layouts), layouts[i%len(layouts)]
+		entries := universe[ui]
+		dir := filepath.Join(c.scratch, sub, fmt.Sprintf("%d-%d", ui, layout))
+		if err := os.MkdirAll(dir, 0o700); err != nil {
+			fail(err)
+			return
+		}
+		text := RenderNetrc(entries, layout)
+		f := netrcFile{entries: entries, layout: layout, text: text}
+		if (ui+layout)%2 == 0 {
+			f.env = map[string]string{"HOME": dir}
+			if err := os.WriteFile(filepath.Join(dir, ".netrc"), []byte(text), 0o600); err != nil {
+				fail(err)
+				return
+			}
+		} else {
+			p := filepath.Join(dir, "custom-netrc")
+			f.env = map[string]string{"HOME": filepath.Join(dir, "no-such-home"), "NETRC": p}
+			if err := os.WriteFile(p, []byte(text), 0o600); err != nil {
+				fail(err)
+				return
+			}
+		}
+		files[i] = f
+	})
+	if firstErr != nil {
+		return nil, firstErr
+	}
+	if c.r.Expired() {
+		return nil, fmt.Errorf("deadline reached while writing the files")
 	}
 	return files, nil
 }
@@ -497,17 +613,27 @@ func (c *checker) netrcSpace() {
 		{Name: H2, Login: "l2", Password: "pwB"},
 		{Default: true, Login: "ld", Password: "pwD"},
 		{Name: H1, Login: "l1b", Password: "pwA2"},
+		{Name: H1C, Login: "l1c", Password: "pwC"}, // round 4: the first machine in another letter case
 	}
-	universe := netrcUniverse(templates, 4)
+	universe := netrcUniverse(templates[:4], 4)
+	// round 4: plus every ordered selection of <= 3 of the five templates that contains the case variant
+	for _, entries := range netrcUniverse(templates, 3) {
+		for _, e := range entries {
+			if e.Name == H1C {
+				universe = append(universe, entries)
+				break
+			}
+		}
+	}
 	files, err := c.writeNetrcFiles("netrc", universe, []int{layoutOneLine, layoutMultiLine, layoutPasswordFirst})
 	if err != nil {
 		r.Incomplete("cannot write netrc files: " + err.Error())
 		return
 	}
-	hosts := []string{H1, H2, H3, "", "r.i", "io", "r.io:443", "xxr.io", "default", "machine"}
+	hosts := []string{H1, H2, H3, "", "r.i", "io", "r.io:443", "xxr.io", "default", "machine", H1C, "R.IO", "XR.io"}
 	r.ParallelFor(len(files), 0, func(i int) {
 		f := files[i]
-		c.fds.opened(r, len(hosts))
+		c.fds.opened(r, 2*len(hosts))
 		container := app.NewEnvContainer(f.env)
 		p := bufconnect.NewNetrcTokenProvider(container, netrc.GetMachineForName)
 		if len(f.entries) > 0 {
@@ -517,7 +643,19 @@ func (c *checker) netrcSpace() {
 		for _, q := range hosts {
 			want := NLookup(f.entries, q)
 			got := p.RemoteToken(q)
-			if got != want {
+			foldTok, foldOK := NFoldFirst(f.entries, q)
+			if foldOK && foldTok != want {
+				// open zone (case variant of a machine name): two answers are tolerated, it has to be the same one twice
+				c.nCaseZone.Add(1)
+				if got == want {
+					c.nCaseZoneExact.Add(1)
+				}
+				if got2 := p.RemoteToken(q); got2 != got {
+					r.Violate("netrc-lookup/nondeterministic", fmt.Sprintf("netrc %q, request host %q: provider returns %q, then %q", f.text, q, got, got2),
+						Case{Phase: "C", Netrc: f.text, RequestHost: q, Model: NCanon(f.entries), Want: want, Got: got + "|" + got2})
+				}
+			}
+			if got != want && !(foldOK && got == foldTok) {
 				why := classifyNetrc(f.entries, q, want, got)
 				r.Violate("netrc-lookup/"+why,
 					fmt.Sprintf("netrc %q, request host %q: provider returns %q, model %s says %q (%s)", f.text, q, got, NCanon(f.entries), want, why),
@@ -665,7 +803,7 @@ func classifyChain(cfg Config, entries []NEntry, q, want, wantSource, got string
 	case got != "" && named && len(netrcOwners) > 0 && netrcOwners[0] == "default" && cfg.Lookup(q) == "":
 		return "default-overrides-machine-entry"
 	case got != "" && len(envOwners) > 0 && cfg.Lookup(q) != got:
-		return "env-token-of-other-host-sent/" + Relation(q, envOwners[0])
+		return "env-token-of-other-host-sent/" + Relation(q, ownerFor(envOwners, q))
 	case got != "" && len(netrcOwners) > 0 && NLookup(entries, q) != got:
 		return "netrc-token-of-other-machine-sent/" + Relation(q, netrcOwners[0])
 	case got != "" && want == "":
@@ -718,7 +856,21 @@ func (c *checker) checkHit(phase, sigPrefix, s, netrcText string, cfg Config, en
 			return
 		}
 	}
-	if got != want {
+	if cfg.Ambiguous(q) {
+		// the open zone of case variants tolerates two answers here: it has to be the same one in every call and under every map iteration seed
+		if o, differs := c.acrossSeeds(phase+"|"+s+"|"+netrcText+"|"+q, got); differs {
+			r.Violate(sigPrefix+"/nondeterministic",
+				fmt.Sprintf("BUF_TOKEN=%q, netrc %q, request to %q: Authorization carries token %q under map iteration seed %d and %q under seed %d", s, netrcText, q, o.got, o.seed, got, c.seed),
+				mk(want, o.got+"|"+got, fmt.Sprintf("map iteration seeds %d and %d", o.seed, c.seed)))
+		}
+	}
+	// open zone of case variants (round 4): besides the chain model's answer, the token of the first env entry and -
+	// when the environment has no entry spelled exactly like q - the password of the first netrc machine that equal q
+	// under case folding are tolerated
+	envFold, envFoldOK := cfg.FoldFirst(q)
+	netrcFold, netrcFoldOK := NFoldFirst(entries, q)
+	tolerated := (envFoldOK && got == envFold) || (cfg.Lookup(q) == "" && netrcFoldOK && got == netrcFold)
+	if got != want && !tolerated {
 		why := classifyChain(cfg, entries, q, want, source, got)
 		r.Violate(sigPrefix+"/"+why,
 			fmt.Sprintf("BUF_TOKEN=%q, netrc %q, request to %q: Authorization carries token %q, model says %q from %q (%s)", s, netrcText, q, got, want, source, why),
@@ -728,7 +880,7 @@ func (c *checker) checkHit(phase, sigPrefix, s, netrcText string, cfg Config, en
 
 func (c *checker) chainSpace(k int, allPerms bool) {
 	r := c.r
-	sentences := structuredSentences(entryForms(H1, H2, H3), k)
+	sentences := structuredSentences(entryForms(H1, H2, H3, H1C), k)
 	templates := []NEntry{
 		{Name: H1, Login: "l1", Password: "pwA"},
 		{Name: H2, Login: "l2", Password: "pwB"},
@@ -740,9 +892,12 @@ func (c *checker) chainSpace(k int, allPerms bool) {
 		r.Incomplete("cannot write netrc files: " + err.Error())
 		return
 	}
-	hosts := []string{H1, H2, H3}
+	// the fourth client asks for H1 in another letter case (round 4); it is made with the others and called at a
+	// position of the call order that rotates with the case index
+	hosts := []string{H1, H2, H3, H1C}
 	n := len(sentences) * len(files)
-	r.ParallelFor(n, 0, func(i int) {
+	one := func(i int) {
+		first := c.seed == 0 // replays under other map seeds are not counted as new cases
 		s := sentences[i/len(files)]
 		f := files[i%len(files)]
 		cfg := Parse(s)
@@ -754,16 +909,20 @@ func (c *checker) chainSpace(k int, allPerms bool) {
 		envProvider, err := bufconnect.NewTokenProviderFromContainer(container)
 		if err != nil || cfg.Kind == KReject {
 			// acceptance itself is judged in checkEnv (phase S); a rejected configuration makes no requests
-			c.chEnvRejected.Add(1)
+			if first {
+				c.chEnvRejected.Add(1)
+			}
 			r.Eval(1)
 			return
 		}
-		c.addStates([]string{"env:" + cfg.Canon() + " " + NCanon(f.entries)})
-		if cfg.Kind != KNone || len(f.entries) > 0 {
-			r.Distinct(fmt.Sprintf("D:%s|%s", s, NCanon(f.entries)))
+		if first {
+			c.addStates([]string{"env:" + cfg.Canon() + " " + NCanon(f.entries)})
+			if cfg.Kind != KNone || len(f.entries) > 0 {
+				r.Distinct(fmt.Sprintf("D:%s|%s", s, NCanon(f.entries)))
+			}
 		}
 		netrcProvider := bufconnect.NewNetrcTokenProvider(container, netrc.GetMachineForName)
-		c.fds.opened(r, 18)
+		c.fds.opened(r, 24)
 		rec := &recorder{}
 		config := connectclient.NewConfig(rec,
 			connectclient.WithAddressMapper(func(a string) string { return "https://" + a }),
@@ -779,7 +938,12 @@ func (c *checker) chainSpace(k int, allPerms bool) {
 		if allPerms {
 			orders = perms3
 		}
-		for _, order := range orders {
+		for oi, order3 := range orders {
+			at := (i + oi) % 4
+			order := make([]int, 0, 4)
+			order = append(order, order3[:min(at, 3)]...)
+			order = append(order, 3)
+			order = append(order, order3[min(at, 3):]...)
 			for _, hi := range order {
 				q := hosts[hi]
 				_, err := clients[hi].GetCurrentUser(context.Background(), connect.NewRequest(&registryv1alpha1.GetCurrentUserRequest{}))
@@ -790,7 +954,13 @@ func (c *checker) chainSpace(k int, allPerms bool) {
 				}
 				c.checkHit("D", "chain", s, f.text, cfg, f.entries, q, q, hits, "")
 				c.lookup(1)
+				if !first {
+					continue
+				}
 				envTok, netrcTok := cfg.Lookup(q), NLookup(f.entries, q)
+				if _, ok := cfg.FoldFirst(q); ok && envTok == "" {
+					c.chCaseVariantRequest.Add(1)
+				}
 				switch {
 				case envTok != "" && netrcTok != "":
 					c.chEnvWins.Add(1)
@@ -809,13 +979,28 @@ func (c *checker) chainSpace(k int, allPerms bool) {
 				}
 			}
 		}
-		r.SampleEvery(i, 7919, func() any {
-			return map[string]any{"phase": "D", "buf_token": s, "netrc": f.text, "model": cfg.Canon() + " " + NCanon(f.entries)}
-		})
-	})
+		if first {
+			r.SampleEvery(i, 7919, func() any {
+				return map[string]any{"phase": "D", "buf_token": s, "netrc": f.text, "model": cfg.Canon() + " " + NCanon(f.entries)}
+			})
+		}
+	}
+	r.ParallelFor(n, 0, one)
+	// configurations whose BUF_TOKEN binds two or more hosts: once more under every other map iteration seed
+	var multi []int
+	for si, s := range sentences {
+		if cfg := Parse(s); cfg.Kind == KMap && len(cfg.Bindings) >= 2 {
+			for fi := range files {
+				multi = append(multi, si*len(files)+fi)
+			}
+		}
+	}
+	c.underOtherSeeds(len(multi), func(j int) { one(multi[j]) })
 	r.Set("D_env_sentences", len(sentences))
 	r.Set("D_netrc_files", len(files))
+	r.Set("D_request_hosts", hosts)
 	r.Set("D_call_orders_per_config", map[bool]int{true: 6, false: 2}[allPerms])
+	r.Set("D_configs_binding_two_or_more_hosts_replayed_under_every_map_seed", len(multi))
 }
 
 // ---------------------------------------------------------------------------------------------
@@ -1022,8 +1207,12 @@ func run(r *evid.Run) {
 		"G: the .netrc file as state: every history of <= d operations {PutMachines(h), PutMachines(h,h'), DeleteMachineForName(h) | h in 3 hosts} from every initial file (absent, empty, ordered selections of machine/default entries, 3 layouts, HOME/NETRC), " +
 		"walked depth first on the real code with the bytes buf wrote carried from step to step, every host of a 6-host menu looked up after EVERY step against the reference model of the file; " +
 		"G2: the same through `buf registry login --token-stdin` / `logout` / `whoami` against 3 loopback registries. " +
+		"Round 4: K: every string of <= n characters over {t,u,h,H,@,','} (a host letter in both cases); S, D, C also contain r.io in a second letter case (R.io) as configured host / machine and as request host, " +
+		"and every configured host is also requested in swapped letter case. The whole run executes under map iteration seed 0 (runtime overlay), and every configuration of A, B, K, S, D that binds two or more hosts is replayed under seeds 1..7 " +
+		"(all 8 start offsets of a one-bucket map), lookups with two tolerated answers being compared across seeds. " +
 		"A case is distinct/non-trivial when its configuration binds at least one token, or is malformed but contains a well-formed token@host part.")
-	r.Assume("hosts are compared as exact strings (the property's anchor says exact-match lookup); case-variants of host names are not requested")
+	r.Assume("hosts are compared as exact strings (the property's anchor says exact-match lookup). Host names that differ only in ASCII letter case are an open zone: for a request host q the exact answer is accepted, and so is the token of the FIRST entry (BUF_TOKEN) / machine (.netrc) equal to q under case folding; a BUF_TOKEN with two such hosts may also be rejected. Never accepted: a later case variant winning, or an answer that changes between calls or map iteration seeds")
+	r.Assume("map iteration seeds 0..7 cover every iteration start of maps with <= 8 entries (one bucket); BUF_TOKEN lists have <= 4 entries here. Larger maps (random per-map hash seed) are not steered")
 	r.Assume("a host named twice in BUF_TOKEN is an open zone: rejecting is accepted, as is the first entry winning (a later entry winning is not). A token part of a token@host entry that contains the separator ':' is malformed (the property's quantifier lists ':' among the separators); a host-less token and a host may contain ':'")
 	r.Assume("netrc histories: operations name only registry hosts (never the words `default`, `machine` or an empty name) and files end with a newline, as every file written by refnetrc or by buf itself does")
 	r.Assume(".netrc files are the well-formed files written by refnetrc (machine/default, login, password keys); lexical corner cases of the third-party netrc parser (quotes, macdef, truncated files) are out of scope")
@@ -1035,7 +1224,18 @@ func run(r *evid.Run) {
 		return
 	}
 	defer os.RemoveAll(scratch)
-	c := &checker{r: r, scratch: scratch, states: map[uint64]struct{}{}, fds: newFDGuard()}
+	c := &checker{r: r, scratch: scratch, states: map[uint64]struct{}{}, fds: newFDGuard(), seedSeen: map[string]seedObs{}}
+	// the whole run executes under map iteration seed 0; phases A, B, K, S, D replay the configurations with two
+	// or more bindings under seeds 1..7 as well (mapseeds.go)
+	c.seedLive = mapSeedLive()
+	r.Set("map_seed_overlay_active", c.seedLive)
+	r.Set("map_iteration_seeds", numMapSeeds)
+	if c.seedLive {
+		setMapSeed(0, true)
+		defer setMapSeed(0, false)
+	} else {
+		r.Incomplete("binary was built without the runtime map-seed overlay (go build -tags verif,mapseed -overlay overlay/mapseed.json): the map-iteration-seed dimension was not explored")
+	}
 
 	charSyms := []string{"t", "u", "h", ":", "@", ","}
 	wordSyms := []string{"tok1", "tok2", H1, H2, ":", "@", ","}
@@ -1053,11 +1253,27 @@ func run(r *evid.Run) {
 		hostsA = append(hostsA, next...)
 		level = next
 	}
+	// phase K (round 4): the character alphabet of phase A with an upper-case twin of `h` in place of `:`
+	caseSyms := []string{"t", "u", "h", "H", "@", ","}
+	hostsK := []string{""}
+	level = []string{""}
+	for l := 1; l <= 3; l++ {
+		var next []string
+		for _, w := range level {
+			for _, p := range []string{"t", "u", "h", "H"} {
+				next = append(next, w+p)
+			}
+		}
+		hostsK = append(hostsK, next...)
+		level = next
+	}
 	hostsB := []string{H1, H2, H3, "", "r.i", "io", ".io", "r.io:443", "r.io:tok1", "xxr.io", "r.io.", "tok1", "tok2", "r.ior.io", "default"}
 
 	lenA, lenB, selfA, selfB, kS, kD, kE, netrcE := 7, 7, 7, 6, 3, 2, 2, 2
+	lenK, selfK := 7, 7
 	if !r.Quick() {
 		lenA, lenB, selfA, selfB, kS, kD, kE, netrcE = 9, 8, 8, 7, 4, 3, 3, 2
+		lenK, selfK = 8, 8
 	}
 	// phase F runs first: it performs the most netrc lookups per second and the netrc library releases its
 	// file descriptors only through finalizers, which needs frequent collections, i.e. a small heap (see fdguard.go)
@@ -1077,6 +1293,7 @@ func run(r *evid.Run) {
 	timed("F", func() { c.interleavePhase(r.Quick()) })
 	timed("A", func() { c.envSpace("A", charSyms, lenA, selfA, hostsA, "h") })
 	timed("B", func() { c.envSpace("B", wordSyms, lenB, selfB, hostsB, "x") })
+	timed("K", func() { c.envSpace("K", caseSyms, lenK, selfK, hostsK, "h") })
 	timed("S", func() { c.structuredEnv(kS) })
 	timed("C", func() { c.netrcSpace() })
 	timed("D", func() { c.chainSpace(kD, !r.Quick()) })
@@ -1122,6 +1339,18 @@ func run(r *evid.Run) {
 	r.Set("clause_e2e_netrc_fallback", c.e2eNetrc.Load())
 	r.Set("clause_e2e_no_header", c.e2eNoHeader.Load())
 	r.Set("clause_e2e_no_header_while_other_host_configured", c.e2eNoLeak.Load())
+	r.Set("env_model_hosts_differing_only_in_case", c.envFoldDup.Load())
+	r.Set("env_case_duplicates_rejected_by_impl", c.envFoldDupRejected.Load())
+	r.Set("env_case_duplicates_accepted_by_impl", c.envFoldDupAccepted.Load())
+	r.Set("clause_env_request_is_case_variant_of_configured_host", c.lookCaseVariantOnly.Load())
+	r.Set("env_case_zone_impl_sends_nothing", c.lookCaseZoneExact.Load())
+	r.Set("env_case_zone_impl_sends_token_of_case_variant", c.lookCaseZoneFolded.Load())
+	r.Set("clause_lookups_with_two_tolerated_answers", c.lookAmbiguous.Load())
+	r.Set("clause_lookups_compared_across_map_seeds_or_calls", c.lookAcrossSeeds.Load())
+	r.Set("cases_replayed_under_other_map_seeds", c.multiReplayed.Load())
+	r.Set("clause_chain_request_is_case_variant_of_env_host", c.chCaseVariantRequest.Load())
+	r.Set("clause_netrc_request_is_case_variant_of_machine", c.nCaseZone.Load())
+	r.Set("netrc_case_zone_impl_answers_exactly", c.nCaseZoneExact.Load())
 
 	if r.Expired() {
 		return
@@ -1135,10 +1364,21 @@ func run(r *evid.Run) {
 		{"netrc machine", c.nNamed.Load()}, {"netrc default", c.nDefault.Load()}, {"netrc machine without password", c.nNamedNoPassword.Load()},
 		{"chain env beats netrc", c.chEnvWins.Load()}, {"chain netrc fallback", c.chNetrcUsed.Load()}, {"chain no header", c.chNoLeakEnv.Load()},
 		{"interleaved Make calls of threads with different tokens", c.fOverlapDifferentTokens.Load()},
+		{"env hosts differing only in case", c.envFoldDup.Load()}, {"request host is a case variant of a configured host", c.lookCaseVariantOnly.Load()},
+		{"chain request host is a case variant of an env host", c.chCaseVariantRequest.Load()},
+		{"netrc request host is a case variant of a machine name", c.nCaseZone.Load()},
 		{"e2e rejected", c.e2eRejected.Load()}, {"e2e env beats netrc", c.e2eEnvWins.Load()}, {"e2e netrc fallback", c.e2eNetrc.Load()}, {"e2e no leak", c.e2eNoLeak.Load()},
 	} {
 		if cl.n == 0 {
 			r.Incomplete("clause never exercised: " + cl.name)
+		}
+	}
+	if c.seedLive && only == "" {
+		if c.multiReplayed.Load() == 0 {
+			r.Incomplete("clause never exercised: configurations replayed under other map iteration seeds")
+		}
+		if c.envFoldDupAccepted.Load() > 0 && c.lookAcrossSeeds.Load() == 0 {
+			r.Incomplete("clause never exercised: lookups with two tolerated answers compared across map iteration seeds")
 		}
 	}
 }
